@@ -6,7 +6,13 @@
   Import-free, total, computable.  Mirrors the Rust code branch by branch
   (file/line references are to /repo/vector_engine/src/lib.rs unless noted):
   the model describes the code that exists, including the places where it does
-  not do what the property asks (see `Variant`).
+  not do what the property asks (post-filter search).  The unsuffixed definitions
+  (`step`, `searchCore`, `searchCollFiltered`, ...) are the code with the fixes
+  a71cd63e (every mutation invalidates the cached index), B1 (the cached index is
+  consulted only for a query of the indexed dimension) and B2 (the collection
+  pre-filter scores with the collection's metric); the code before those fixes is
+  kept as `stepOld`, `searchCoreOld`, `searchCollFilteredOld`, ... for the
+  regression witnesses.
 
   Vectors are lists of `Int`: the correspondence harness drives the real engine
   with small integer-valued `f32` vectors, on which every `f32` product/sum the
@@ -226,17 +232,6 @@ def collOf (st : State) (c : String) : Coll := (alGet st.named c).getD Coll.empt
 
 def setColl (st : State) (c : String) (x : Coll) : State := { st with named := alPut st.named c x }
 
-/-- Which code is modelled.  `current` = the tree as it is: `store_embedding_with_metadata`,
-    `batch_delete_embeddings`, `clear` and `delete_collection` change the data WITHOUT
-    invalidating the cached index.  `fixed` = the same code with
-    /verif/proposed/C06-invalidate-hnsw-cache.diff applied. -/
-structure Variant where
-  invalidateEverywhere : Bool
-  deriving DecidableEq
-
-def Variant.current : Variant := ⟨false⟩
-def Variant.fixed : Variant := ⟨true⟩
-
 inductive Err where
   | emptyVector | invalidTopK | dimMismatch | notFound | collExists | collNotFound | unsupported
   deriving DecidableEq
@@ -283,11 +278,7 @@ def sameDims (items : Items) : Bool :=
   | [] => true
   | e :: rest => rest.all (fun x => (vecOf x.2).length == (vecOf e.2).length)
 
-/-- cache after a mutation that the current code forgets to follow with an invalidation -/
-def afterForgotten (v : Variant) (cache : Option Snap) : Option Snap :=
-  if v.invalidateEverywhere then none else cache
-
-def step (v : Variant) (st : State) : Op → State × Resp
+def step (st : State) : Op → State × Resp
   | .store key vec =>
     -- lib.rs:1840-1868
     if vec.isEmpty then (st, .err .emptyVector)
@@ -295,23 +286,25 @@ def step (v : Variant) (st : State) : Op → State × Resp
       let it := mkItem vec []
       ({ st with dflt := ⟨alPut st.dflt.items key it, none⟩ }, .okRepr it.repr)
   | .storeMeta key vec md =>
-    -- lib.rs:3272-3309: no `invalidate_hnsw_cache`
+    -- lib.rs:3272-3317: `invalidate_hnsw_cache("_default")` after the put
     if vec.isEmpty then (st, .err .emptyVector)
     else
       let it := mkItem vec md
-      ({ st with dflt := ⟨alPut st.dflt.items key it, afterForgotten v st.dflt.cache⟩ }, .okRepr it.repr)
+      ({ st with dflt := ⟨alPut st.dflt.items key it, none⟩ }, .okRepr it.repr)
   | .delete key =>
     -- lib.rs:1915-1925
     if alHas st.dflt.items key then
       ({ st with dflt := ⟨alDel st.dflt.items key, none⟩ }, .ok)
     else (st, .err .notFound)
   | .batchDelete keys =>
-    -- lib.rs:2924-2940: no `invalidate_hnsw_cache`
+    -- lib.rs:2927-2947: `if deleted > 0 { invalidate_hnsw_cache("_default") }`
     let present := (keys.eraseDups.filter (fun k => alHas st.dflt.items k)).length
-    ({ st with dflt := ⟨keys.foldl alDel st.dflt.items, afterForgotten v st.dflt.cache⟩ }, .okN present)
+    ({ st with dflt := ⟨keys.foldl alDel st.dflt.items, if present = 0 then st.dflt.cache else none⟩ },
+      .okN present)
   | .clear =>
-    -- lib.rs:2340-2354: no `invalidate_hnsw_cache`
-    ({ st with dflt := ⟨[], afterForgotten v st.dflt.cache⟩ }, .okN st.dflt.items.length)
+    -- lib.rs:2341-2357: `if count > 0 { invalidate_hnsw_cache("_default") }`
+    ({ st with dflt := ⟨[], if st.dflt.items.length = 0 then st.dflt.cache else none⟩ },
+      .okN st.dflt.items.length)
   | .build =>
     -- lib.rs:1330-1334, 2423-2470: all vectors must have the first one's dimension
     if sameDims st.dflt.items then
@@ -322,10 +315,9 @@ def step (v : Variant) (st : State) : Op → State × Resp
     if alHas st.configs c then (st, .err .collExists)
     else ({ st with configs := alPut st.configs c cfg }, .ok)
   | .dropColl c =>
-    -- lib.rs:1385-1402: removes config and data, leaves `hnsw_cache[c]` alone
+    -- lib.rs:1385-1403: removes config and data, then `invalidate_hnsw_cache(c)`
     if alHas st.configs c then
-      let x := collOf st c
-      ({ setColl st c ⟨[], afterForgotten v x.cache⟩ with configs := alDel st.configs c }, .ok)
+      ({ setColl st c ⟨[], none⟩ with configs := alDel st.configs c }, .ok)
     else (st, .err .collNotFound)
   | .cstore c key vec md =>
     -- lib.rs:1447-1499
@@ -354,9 +346,33 @@ def step (v : Variant) (st : State) : Op → State × Resp
       (setColl st c ⟨x.items, some (snapOf x.items)⟩, .okN x.items.length)
     else (st, .err .dimMismatch)
 
-def run (v : Variant) : State → List Op → State
+def run : State → List Op → State
   | st, [] => st
-  | st, op :: ops => run v (step v st op).1 ops
+  | st, op :: ops => run (step st op).1 ops
+
+/-- The code BEFORE a71cd63e: `store_embedding_with_metadata`, `batch_delete_embeddings`, `clear`
+    and `delete_collection` changed the data without invalidating the cached index; every other
+    operation is unchanged. -/
+def stepOld (st : State) : Op → State × Resp
+  | .storeMeta key vec md =>
+    if vec.isEmpty then (st, .err .emptyVector)
+    else
+      let it := mkItem vec md
+      ({ st with dflt := ⟨alPut st.dflt.items key it, st.dflt.cache⟩ }, .okRepr it.repr)
+  | .batchDelete keys =>
+    let present := (keys.eraseDups.filter (fun k => alHas st.dflt.items k)).length
+    ({ st with dflt := ⟨keys.foldl alDel st.dflt.items, st.dflt.cache⟩ }, .okN present)
+  | .clear =>
+    ({ st with dflt := ⟨[], st.dflt.cache⟩ }, .okN st.dflt.items.length)
+  | .dropColl c =>
+    if alHas st.configs c then
+      ({ setColl st c ⟨[], (collOf st c).cache⟩ with configs := alDel st.configs c }, .ok)
+    else (st, .err .collNotFound)
+  | op => step st op
+
+def runOld : State → List Op → State
+  | st, [] => st
+  | st, op :: ops => runOld (stepOld st op).1 ops
 
 /-! ## 5. Searches (read-only) -/
 
@@ -392,11 +408,12 @@ inductive SearchOut where
       `snap`; `rs` = every indexed vector of the query's dimension with its true cosine score
       (the index is built with the default `HNSWDistanceMetric::Cosine`), best first -/
   | viaIndex (snap : Snap) (rs : List Cand) (cut k : Nat)
-  /-- the cached index was consulted with a query of another dimension than the indexed
-      vectors: `index.search` is handed the query unchecked (lib.rs:1981, 1627) and either
-      panics (shorter query) or scores a prefix of the query against vectors of the wrong
-      dimension (longer query).  The model leaves the outcome unspecified. -/
+  /-- ONLY produced by the pre-B1 code (`searchCoreOld`): the cached index was consulted with a
+      query of another dimension than the indexed vectors: `index.search` was handed the query
+      unchecked and either panicked (shorter query) or scored a prefix of the query against
+      vectors of the wrong dimension (longer query).  The outcome is left unspecified. -/
   | indexDimMismatch (snap : Snap)
+  deriving DecidableEq
 
 def SearchOut.answer : SearchOut → List Cand
   | .ranked _ rs cut k => ((rs.take cut).filter (·.pass)).take k
@@ -414,9 +431,25 @@ def snapCands (snap : Snap) (cur : Items) (q : List Int) (f : Option Filter) : L
             | none => false)⟩
     else none
 
-/-- the part shared by `search_similar` (lib.rs:1976-2036) and `search_in_collection`
-    (lib.rs:1622-1688) after the argument checks -/
+/-- the guard in front of `index.search` (lib.rs:1627-1629, 1983-1985 with B1):
+    `!mapping.is_empty() && index.get_vector(0).is_some_and(|v| v.len() == query.len())` -/
+def indexUsable (s : Snap) (q : List Int) : Bool :=
+  match s with
+  | [] => false
+  | e :: _ => e.2.length == q.length
+
+/-- the part shared by `search_similar` (lib.rs:1978-2040) and `search_in_collection`
+    (lib.rs:1623-1690) after the argument checks: the cached index when there is one, it is not
+    empty and it indexes vectors of the query's dimension; brute force otherwise -/
 def searchCore (x : Coll) (m : Metric) (q : List Int) (f : Option Filter) (cut k : Nat) : SearchOut :=
+  match x.cache with
+  | some s =>
+    if indexUsable s q then .viaIndex s (rank .cosine (snapCands s x.items q f)) cut k
+    else .ranked m (rank m (candidates x.items m q f)) cut k
+  | none => .ranked m (rank m (candidates x.items m q f)) cut k
+
+/-- the same BEFORE B1: only `!mapping.is_empty()` was checked -/
+def searchCoreOld (x : Coll) (m : Metric) (q : List Int) (f : Option Filter) (cut k : Nat) : SearchOut :=
   match x.cache with
   | some s =>
     if s.isEmpty then .ranked m (rank m (candidates x.items m q f)) cut k
@@ -430,6 +463,13 @@ def searchDefault (st : State) (q : List Int) (k : Nat) : SearchOut :=
   else if k = 0 then .err .invalidTopK
   else if normSq q = 0 then .zeroQuery
   else searchCore st.dflt .cosine q none k k
+
+/-- `search_similar` before B1 -/
+def searchDefaultOld (st : State) (q : List Int) (k : Nat) : SearchOut :=
+  if q.isEmpty then .err .emptyVector
+  else if k = 0 then .err .invalidTopK
+  else if normSq q = 0 then .zeroQuery
+  else searchCoreOld st.dflt .cosine q none k k
 
 /-- `search_similar_with_metric` (never consults the cache; lib.rs:2049-2101) -/
 def searchMetric (st : State) (m : Metric) (q : List Int) (k : Nat) : SearchOut :=
@@ -490,10 +530,30 @@ def searchColl (st : State) (c : String) (q : List Int) (k : Nat) : SearchOut :=
   else if normSq q = 0 && cfgMetric st c == .cosine then .zeroQuery
   else searchCore (collOf st c) (cfgMetric st c) q none k k
 
-/-- `search_filtered_in_collection` (lib.rs:1698-1829).  Auto has no special case for `True`;
-    the pre-filter branch scores with cosine whatever the collection's metric is; the
-    post-filter branch goes through `search_in_collection` (collection metric, cache-aware). -/
+/-- `search_filtered_in_collection` (lib.rs:1699-1833 with B2).  Auto has no special case for
+    `True`; a zero query answers nothing only under cosine; the pre-filter branch scores with the
+    collection's configured metric (`compute_score`); the post-filter branch goes through
+    `search_in_collection` (collection metric, cache-aware). -/
 def searchCollFiltered (st : State) (c : String) (q : List Int) (k : Nat) (f : Filter)
+    (strat : Strategy) (os : Nat) : SearchOut :=
+  if q.isEmpty then .err .emptyVector
+  else if k = 0 then .err .invalidTopK
+  else if !cfgDimOk st c q then .err .dimMismatch
+  else if normSq q = 0 && cfgMetric st c == .cosine then .zeroQuery
+  else
+    let x := collOf st c
+    let m := cfgMetric st c
+    let s := match strat with
+      | .auto => if x.items.length = 0 then Strategy.post
+                 else if sampleSaysPre x.items f then Strategy.pre else Strategy.post
+      | other => other
+    match s with
+    | .post => searchCore x m q (some f) (oversampleK k os) k
+    | _ => .ranked m (rank m ((candidates x.items m q (some f)).filter (·.pass))) k k
+
+/-- the same BEFORE B2 (and B1): a zero query answered nothing for every metric and the
+    pre-filter branch scored with cosine whatever the collection's metric was -/
+def searchCollFilteredOld (st : State) (c : String) (q : List Int) (k : Nat) (f : Filter)
     (strat : Strategy) (os : Nat) : SearchOut :=
   if q.isEmpty then .err .emptyVector
   else if k = 0 then .err .invalidTopK
@@ -506,7 +566,7 @@ def searchCollFiltered (st : State) (c : String) (q : List Int) (k : Nat) (f : F
                  else if sampleSaysPre x.items f then Strategy.pre else Strategy.post
       | other => other
     match s with
-    | .post => searchCore x (cfgMetric st c) q (some f) (oversampleK k os) k
+    | .post => searchCoreOld x (cfgMetric st c) q (some f) (oversampleK k os) k
     | _ => .ranked .cosine (rank .cosine ((candidates x.items .cosine q (some f)).filter (·.pass))) k k
 
 /-- The engine's post-processing of what `index.search(query, k)` returned (lib.rs:1981-1998):
